@@ -347,6 +347,37 @@ def check_int_scalar(c, rec):
                                  f"{want.ravel()[:5].tolist()} (x={x.ravel()[:5].tolist()})")
 
 
+# ---- reductions over integer / bool tensors: counts and sums as NumPy and PyTorch compute them ---------------------
+@st.composite
+def int_reduce_cases(draw):
+    shp = draw(gen.shapes(1, 3, 40))
+    n = int(np.prod(shp))
+    return {"shape": shp, "v": [draw(st.integers(-120, 127)) for _ in range(n)], "idt": draw(st.sampled_from(["bool", "int8", "uint8", "int16", "int32", "int64"])),
+            "op": draw(st.sampled_from(["sum", "sum", "max", "min"])), "dim": draw(st.sampled_from([None, 0, -1])), "keep": draw(st.booleans())}
+
+
+def check_int_reduce(c, rec):
+    dt = np.dtype(c["idt"])
+    vals = np.array(c["v"]).reshape(c["shape"])
+    if dt.kind == "u":
+        vals = np.abs(vals)
+    if dt.kind == "b":
+        vals = vals % 2
+    x = vals.astype(dt)
+    rec.tag(c["idt"], c["op"])
+    rec.nontrivial(True)
+    try:
+        out = getattr(sg.Tensor(x.copy()), c["op"])(c["dim"], c["keep"])
+    except Exception:  # noqa: BLE001
+        rec.skip = "rejected_not_documented"
+        return
+    want = getattr(np, c["op"])(x.astype(np.int64), axis=c["dim"], keepdims=c["keep"])       # the true count / sum / extremum
+    got = np.asarray(out.data)
+    if got.shape != np.shape(want) or not np.array_equal(got.astype(np.float64), np.asarray(want, dtype=np.float64)):
+        raise Violation("value", f"{c['op']} of a {c['idt']} tensor {x.ravel()[:6].tolist()}... (dim={c['dim']}): got "
+                                 f"{got.ravel()[:4].tolist()} ({got.dtype}), the true result is {np.asarray(want).ravel()[:4].tolist()}")
+
+
 # ---- half precision: mean follows NumPy/PyTorch (float32 intermediates), also for long reductions -----------
 @st.composite
 def f16_cases(draw):
@@ -573,6 +604,7 @@ def subchecks():
     subs.append(SubCheck("reflected_operators", check_reflected, reflected_cases, quick=400, thorough=4000))
     from .. import zerosize
     subs.append(SubCheck("zero_size", check_zero_size, zerosize.cases, quick=500, thorough=6000))
+    subs.append(SubCheck("int_tensor_reductions", check_int_reduce, int_reduce_cases, quick=400, thorough=4000))
     subs.append(SubCheck("int_tensor_scalar", check_int_scalar, int_scalar_cases, quick=600, thorough=6000))
     subs.append(SubCheck("dim_grid", check_dim_grid, None, enum=enum_dims, exhaustive=True, shards_quick=8, shards_thorough=16))
     return subs
